@@ -736,3 +736,39 @@ func genomeText(g *genetics.Genome) string {
 	}
 	return b.String()
 }
+
+// modularVariants rewires the modules of a snapshot of the shipped modular genome: modules switched off, an input or the
+// output node shared by two modules, a third module on top. The module link weights stay 1.0 (all the YAML format expresses).
+func modularVariants(r *rand.Rand, s *SnapGenome) {
+	if len(s.Modules) < 2 {
+		return
+	}
+	one := fbits(1.0)
+	if r.Intn(2) == 0 {
+		s.Modules[1].Ins[0] = s.Modules[0].Ins[0] // an input node shared by two modules
+	}
+	if r.Intn(3) == 0 {
+		s.Modules[1].Outs[0] = s.Modules[0].Outs[0] // both modules write the same node
+	}
+	if r.Intn(2) == 0 {
+		last := s.Modules[len(s.Modules)-1]
+		hidden := []int{}
+		for _, n := range s.Nodes {
+			if n.Neuron == byte(network.HiddenNeuron) {
+				hidden = append(hidden, n.Id)
+			}
+		}
+		m := SnapModule{CtrlId: last.CtrlId + 1, Act: byte(pick(r, neatmath.MultiplyModuleActivation, neatmath.MaxModuleActivation, neatmath.MinModuleActivation)),
+			Innov: last.Innov + 1, Mut: fbits(0.25), En: r.Intn(4) != 0,
+			Ins: []int{s.Modules[0].Ins[0], hidden[r.Intn(len(hidden)-1)]}, Outs: []int{hidden[len(hidden)-1]}}
+		// (a module's inputs and outputs stay disjoint: the output is the last hidden node, the inputs are drawn from the others)
+		if m.Ins[0] == m.Ins[1] {
+			m.Ins = m.Ins[:1]
+		}
+		for range m.Ins {
+			m.InW = append(m.InW, one)
+		}
+		m.OutW = []uint64{one}
+		s.Modules = append(s.Modules, m)
+	}
+}
